@@ -6,7 +6,7 @@ from . import spec as S
 
 SCALARS = ('bool', 'char', 'unsigned char', 'int', 'size_t', 'double')
 EIGEN = ('Vector', 'Matrix', 'Point2', 'Point3')
-GUARD = {'bool': 'logical', 'char': 'char', 'unsigned char': 'unsigned char', 'int': 'numeric', 'size_t': 'numeric',
+GUARD = {'bool': 'logical', 'char': 'char', 'unsigned char': 'numeric', 'int': 'numeric', 'size_t': 'numeric',
          'double': 'double', 'string': 'char', 'Vector': 'double', 'Matrix': 'double', 'Point2': 'double',
          'Point3': 'double'}
 
